@@ -22,3 +22,10 @@ def reject(section):
 def boom(value):
     """A datatype function that fails with a non-ValueError exception."""
     raise KeyError("datatype failure: %r" % (value,))
+
+
+def boomkey(value):
+    """A key datatype that fails with a non-ValueError exception on one text."""
+    if value == "BOOM":
+        raise KeyError("datatype failure: %r" % (value,))
+    return value
